@@ -43,7 +43,7 @@ From RX.Proofs Require Import CharTablesProofs RejectProofs WfParseTok WfParseCh
 From RX.Spec Require CstU CstText CstNs CstFull CstFullS5.
 From RX.Proofs Require CstSoundP CstSoundPRDoc CstSoundPRCor.
 From RX.Spec Require CstFullS4 CstFullS6.
-From RX.Proofs Require KnownFindingsD21 CstSound6P CstSound6 CstSound6U CstSound6uCor CstFullS6Main CstFullRejSem CstFullRejTrace CstFullRejDoc CstFullRejMain CstFullNsRejMain.
+From RX.Proofs Require KnownFindingsMore KnownFindingsD21 CstSound6P CstSound6 CstSound6U CstSound6uCor CstFullS6Main CstFullRejSem CstFullRejTrace CstFullRejDoc CstFullRejMain CstFullNsRejMain.
 Open Scope N_scope.
 
 (* ---- Proofs/CharTablesProofs.v ---- *)
@@ -459,8 +459,32 @@ Print Assumptions C08_parse_sound_and_complete_6u.
 
 End G16.
 
-(* ---- Proofs/KnownFindingsD21.v ---- *)
+(* ---- Proofs/KnownFindingsMore.v ---- *)
 Module G17.
+Import RX.Proofs.CstNsView. Import RX.Proofs.KnownFindingsMore.
+Theorem C08_d27_refuted :
+  exists x : document,
+         parse d27_text opts = Ok x /\ view d27_text x = Some [elem "a" [] 1; CstNs.VText (b "x%y")].
+Proof. exact d27_refuted. Qed.
+Print Assumptions C08_d27_refuted.
+
+Theorem C08_d28_refuted :
+  exists x : document,
+         parse d28_text opts = Ok x /\
+         view d28_text x = Some [elem "a" [] 2; CstNs.VPI (b "p:q") (Some (b "r")); CstNs.VText (b "x")].
+Proof. exact d28_refuted. Qed.
+Print Assumptions C08_d28_refuted.
+
+Theorem C08_d29_refuted :
+  exists x : document,
+         parse d29_text opts = Ok x /\ view d29_text x = Some [elem "a" [] 1; CstNs.VText (b "&")].
+Proof. exact d29_refuted. Qed.
+Print Assumptions C08_d29_refuted.
+
+End G17.
+
+(* ---- Proofs/KnownFindingsD21.v ---- *)
+Module G18.
 Import RX.Spec.CstNs. Import RX.Proofs.NsRejDefs. Import RX.Proofs.NsRejBuild. Import RX.Proofs.NsRejMain. Import RX.Proofs.KnownFindingsD21.
 Theorem C08_d21_refuted :
   exists (c : doc) (d : document),
@@ -487,10 +511,10 @@ Theorem C08_d21_outside_class_variant :
 Proof. exact d21_outside_class_variant. Qed.
 Print Assumptions C08_d21_outside_class_variant.
 
-End G17.
+End G18.
 
 (* ---- Proofs/NsRejMain.v ---- *)
-Module G18.
+Module G19.
 Import CstNs.
 Theorem C08_ns_violation_rejected :
   forall (c : doc) (opt : options),
@@ -503,10 +527,10 @@ Theorem C08_ns_violation_rejected :
 Proof. exact ns_violation_rejected. Qed.
 Print Assumptions C08_ns_violation_rejected.
 
-End G18.
+End G19.
 
 (* ---- Proofs/CstFullNsRejMain.v ---- *)
-Module G19.
+Module G20.
 Import RX.Spec.CstFull. Import RX.Spec.CstFullS4. Import RX.Spec.CstFullS6. Import RX.Proofs.CstNsView. Import RX.Proofs.CstFullS6Main. Import RX.Proofs.NsRejDefs. Import RX.Proofs.NsRejBuild. Import RX.Proofs.CstFullRejSem. Import RX.Proofs.CstFullRejTrace. Import RX.Proofs.CstFullRejDoc. Import RX.Proofs.CstFullRejMain. Import RX.Proofs.CstFullNsRejMain.
 Theorem C08_ns_violation_rejected_full_s6 :
   forall (d : S6.doc) (opt : options) (cT : CstFull.doc bpieces) (tr : list Detector.lop),
@@ -525,4 +549,4 @@ Theorem C08_ns_violation_rejected_full_s6 :
 Proof. exact ns_violation_rejected_full_s6. Qed.
 Print Assumptions C08_ns_violation_rejected_full_s6.
 
-End G19.
+End G20.
